@@ -239,6 +239,10 @@ class Interp:
         kwargs = kwargs or {}
         c = ctx()
         if isinstance(f, IFunc):
+            con = self.contracts.get(f.name)
+            if con is not None and f.name not in self.force_inline and f.name != self.verifying:
+                self.contract_applied.add(f.name)
+                return con.apply(self, f, args, kwargs)
             return self.call_node(f.node, f.frame, f.name, args, kwargs, closure=f.frame,
                                   globals_=f.frame.globals, owner=f.owner)
         if isinstance(f, IBound):
@@ -988,6 +992,14 @@ class Interp:
             b = _np_scalar_to_sym(b)
         if isinstance(b, (SInt,)) and isinstance(a, np.integer):
             a = _np_scalar_to_sym(a)
+        if isinstance(a, np.floating) and (getattr(b, "_pyvc_symbolic", False) or is_sym(b)):
+            a = float(a)
+        if isinstance(b, np.floating) and (getattr(a, "_pyvc_symbolic", False) or is_sym(a)):
+            b = float(b)
+        if isinstance(a, np.integer) and getattr(b, "_pyvc_symbolic", False):
+            a = int(a)
+        if isinstance(b, np.integer) and getattr(a, "_pyvc_symbolic", False):
+            b = int(b)
         if isinstance(a, np.uint64) and isinstance(b, SU64):
             a = SU64(core._u64(int(a)))
         if isinstance(b, np.uint64) and isinstance(a, SU64):
@@ -1516,6 +1528,9 @@ class MapLoop(LoopSpec):
         # postconditions that only concern per-iteration effects, by havocking assigned locals.
         for n in assigned_names(s.body) | tnames:
             fr.locals[n] = Havoc(n)
+        if not hasattr(c, "closed_loops"):
+            c.closed_loops = []
+        c.closed_loops.append(list(c.loop_vars[-nvars:]))
         del c.loop_vars[-nvars:]
 
 
